@@ -47,6 +47,7 @@ func c07Run(t gen.TB, w *gen.World, desc string) {
 
 func TestC07(t *testing.T) {
 	replayDir(t, "C07")
+	gen.Direct(t, "message-field-width", c07MessageWidth)
 	gen.Prop(t, "model", gen.N(5000, 300000), func(t *rapid.T) {
 		w, _ := gen.DrawWorld(t, gen.WorldCfg{MaxAuth: 16, Simple: true, NoModule: true})
 		s := gen.NewStream(rapid.Uint64().Draw(t, "c"), "c07")
@@ -129,6 +130,30 @@ func TestC07(t *testing.T) {
 		gen.Sample("qe", map[string]any{"perturb": pert, "levels": fmt.Sprint(d.Levels), "report_isvsvn": q.QeIsvSvn})
 		c07Run(t, w, pert)
 	})
+}
+
+// A QuoteV4 MESSAGE can carry ISVSVN / ISVPRODID values wider than the 16 bits that are signed: the level
+// selection must not be driven by the unsigned high bits.
+func c07MessageWidth(t *testing.T) {
+	for i, d := range []uint32{1 << 16, 1 << 17, 3 << 16, 1 << 31} {
+		w := gen.NewWorld(gen.NewPKI(gen.PKISpec{Seed: "pki-C"}), gen.NewStream(gen.Seed()+uint64(i), "c07msg"))
+		w.Q.QeIsvSvn = uint16(i) // 0, 1, 2, 3
+		w.HonestCollateral()
+		// the genuine (signed) ISVSVN selects an OutOfDate level; the widened one would select the UpToDate level
+		w.QeID.Levels = []gen.QeLevel{{Isvsvn: 1000, Status: "UpToDate"}, {Isvsvn: 0, Status: "OutOfDate"}}
+		w.Build()
+		m := w.Q.ToProto()
+		m.SignedData.CertificationData.QeReportCertificationData.QeReport.IsvSvn += d
+		o := w.Options(gen.LvlColl, w.NewGetter(), nil)
+		gen.Eval()
+		v := gen.Call(func() error { return verify.TdxQuote(m, o) })
+		if v.Accepted() {
+			gen.Fail(t, gen.Violation{Key: "accepts-bad-qe:unsigned-high-bits-of-isvsvn", Oracle: "the QE level is selected by the report's (signed) ISVSVN", Detail: fmt.Sprintf("signed ISVSVN %d (OutOfDate level), message carries %d and is accepted", i, uint32(i)+d), Replay: w.CaseFile(gen.LvlColl, nil, nil, nil, "reject")})
+			return
+		}
+		gen.NonTrivial("msgwidth", i, d)
+		gen.Class("message-width")
+	}
 }
 
 func and(a, m []byte) []byte {
